@@ -30,15 +30,15 @@ func recFill(dt ref.DT, sh []int, salt int) *ref.T {
 }
 
 type recCfg struct {
-	Op                 string   `json:"op"`
-	DT                 string   `json:"dt"`
-	S, B, I, H         int
-	HasB, HasH0        bool
-	HasC0, HasP        bool
-	Trail              bool     `json:"trail"`
-	Acts               []string `json:"acts,omitempty"`
-	LBR, InputForget   bool
-	Route              string   `json:"route"`
+	Op               string `json:"op"`
+	DT               string `json:"dt"`
+	S, B, I, H       int
+	HasB, HasH0      bool
+	HasC0, HasP      bool
+	Trail            bool     `json:"trail"`
+	Acts             []string `json:"acts,omitempty"`
+	LBR, InputForget bool
+	Route            string `json:"route"`
 }
 
 func (cf recCfg) gates() int { return map[string]int{"RNN": 1, "GRU": 3, "LSTM": 4}[cf.Op] }
